@@ -529,6 +529,7 @@ class RaceHarness(Harness):
         worker_cells = {}
         worker_clients = {}
         pending_cct = []
+        reach = {"cct_before_late_start": 0, "cct_while_waiting_at_join_point": 0}
         cct = []  # CompleteCurrentTask handled: (vtime, worker cell aid)
         jpr = []  # JoinPointReached sent by worker
         driver_sent_cct = []
@@ -545,6 +546,11 @@ class RaceHarness(Harness):
                 if mname == "CompleteCurrentTask":
                     # judged from the instant the handler has *returned* (the actor thread may be descheduled inside it)
                     pending_cct.append(cell.aid)
+                    try:
+                        if cell.inst.client_allocations is not None and cell.inst.at_joinpoint():
+                            reach["cct_before_late_start" if cell.inst.start_driving else "cct_while_waiting_at_join_point"] += 1
+                    except Exception:
+                        pass
                 if mname == "StartWorker":
                     worker_clients[cell.aid] = [a["client_id"] for a in msg.client_allocations.allocations]
                 if mname == "StartWorker" and "armed" in state and not state.get("armed_done"):
@@ -659,6 +665,7 @@ class RaceHarness(Harness):
             nworkers = len(worker_cells)
             probes = dict(system.probes)
             probes.update(info["probes"])
+            probes.update(reach)
             probes["workers>=2"] = int(nworkers >= 2)
             probes["unpicklable_message_dropped"] = system.dropped_unpicklable
             if prop == "C01":
